@@ -18,7 +18,7 @@ open Pydap Pydap.Proxy
 theorem C18_open_session (b : Name) (bs : List Name) (σ : Sess) (n : Name) (keys : List Name)
     (arrays : List (Name × List Nat × Bool)) : SessInv σ (openHeap b bs σ n keys arrays) := by
   refine ⟨?_, by simp [openHeap]⟩
-  intro o ho
+  intro o ho _
   simp only [openHeap, List.mem_append, List.mem_cons, List.mem_map, List.not_mem_nil, or_false] at ho
   rcases ho with (ho | ⟨a, _, ha⟩) | ho
   · subst ho; rfl
@@ -26,11 +26,11 @@ theorem C18_open_session (b : Name) (bs : List Name) (σ : Sess) (n : Name) (key
   · subst ho; rfl
 
 /-- **Session invariant, any history**: every GET logged by any history of derivations, copies,
-    reads, array reads and server-function calls, on any objects, carries the session the
+    reads, array reads, variable and grid reads (array and maps) and server-function calls, on any objects, carries the session the
     objects were created with — including the GETs of derived sequences, of DAP4 variables and of
     server-function results; never `none` (a fresh anonymous session). -/
 theorem C18_session (σ : Sess) (h : Heap) (i : SessInv σ h) (evs : List Ev) :
-    (∀ e ∈ (run h evs).log, e.1 = σ) ∧ (∀ o ∈ (run h evs).objs, objSess o = σ) :=
+    (∀ e ∈ (run h evs).log, e.1 = σ) ∧ (∀ o ∈ (run h evs).objs, carries o = true → objSess o = σ) :=
   ⟨(run_sessInv σ h i evs).2, (run_sessInv σ h i evs).1⟩
 
 /-- the two together, from `open_url` -/
